@@ -105,3 +105,23 @@ Example ex_stale_on_error :
       {| q_t := 10 + 2 * five_minutes; q_tp := 10 + 2 * five_minutes; q_user := 1%N; q_raw := Some false |} ]
   = [true; true; true; false].
 Proof. vm_compute. reflexivity. Qed.
+
+(* comparison helpers for the correspondence case files *)
+Definition cout_eqb (a b : cout) : bool :=
+  match a, b with
+  | OGet x y, OGet x' y' => Bool.eqb x x' && Bool.eqb y y'
+  | OPut, OPut => true
+  | _, _ => false
+  end.
+Fixpoint couts_eqb (a b : list cout) : bool :=
+  match a, b with
+  | [], [] => true
+  | x :: r, y :: s => cout_eqb x y && couts_eqb r s
+  | _, _ => false
+  end.
+Fixpoint bools_eqb (a b : list bool) : bool :=
+  match a, b with
+  | [], [] => true
+  | x :: r, y :: s => Bool.eqb x y && bools_eqb r s
+  | _, _ => false
+  end.
